@@ -299,9 +299,16 @@ def stack_jobs(tag, focus, s, tier, work):
             for drv in ("memory", "badger")]
 
 
+def shared_wallet_jobs(tag, focus, s, tier, work):
+    """real parallelism: all nodes on one wallet, everybody's keep-alives and direct credits at once (badger: many
+    optimistic transactions on one record, each must be retried until it commits)"""
+    return pool_jobs(tag + "shared", focus, s + 9, sized(tier, 30, 400), 0, work, cfg=dict(RACE_CFG, allclients=True, onewallet=True),
+                     weights=dict(burst=1), chunks=1 if tier == "quick" else 4, drivers=("badger",), binary="viprace")
+
+
 def store_ledger_jobs(s, tier, work):
     nt, nops = sized(tier, (20, 40), (300, 60))
-    return stack_jobs("c01", "C01", s, tier, work) + race_jobs("c01race", s, tier, work, "ledger", focus="C01race") + [Job("c01-store-%s" % drv, GS.store_script(s * 1000 + 101, nt, nops, drv, work), "VipStoreTrace", "VipStoreTrace.cfg", "ledger")
+    return stack_jobs("c01", "C01", s, tier, work) + race_jobs("c01race", s, tier, work, "ledger", focus="C01race") + shared_wallet_jobs("c01", "C01race", s, tier, work) + [Job("c01-store-%s" % drv, GS.store_script(s * 1000 + 101, nt, nops, drv, work), "VipStoreTrace", "VipStoreTrace.cfg", "ledger")
             for drv in ("memory", "badger")]
 
 
@@ -686,13 +693,19 @@ def c14(pid, tier, work, replay):
         for lazy in ("0", "1"):
             runs.append(("c14-race-%s-%d" % (lazy, i), "viprace",
                          ["rpcstress", str(s * 100 + 50 + i), sized(tier, "6", "8"), str(sized(tier, 15, 60)), "pipe", lazy, "@TRACE", "@STATUS"], "real"))
+    # wide: 40 (thorough: also 45) callers whose handlers each call back once; deep: one chain of 80 nested call-backs
+    for transport in ("mem", "pipe"):
+        runs.append(("c14-wide-%s" % transport, "vipsim", ["rpcwide", "1", str(s), "40", "2", transport, "0", "@TRACE", "@STATUS"], "fake"))
+        runs.append(("c14-deep-%s" % transport, "vipsim", ["rpcwide", "80", str(s), "1", "2", transport, "1", "@TRACE", "@STATUS"], "fake"))
+    runs.append(("c14-wide-race", "viprace", ["rpcwide", "1", str(s), "40", "3", "pipe", "0", "@TRACE", "@STATUS"], "real"))
     runs.append(("c14-first", "viprace", ["rpcfirst", str(s), str(sized(tier, 150, 2000)), "4", "@TRACE", "@STATUS"], "real"))
     return event_check(
         pid, tier, work, "VipRpcTrace", "VipRpcTrace.cfg", [("VipRpcMC", "VipRpcMC.cfg")], runs,
         "2x3 (faketime) and 2x8 (race build) concurrent callers with unique tokens on both ends of one connection, nested call-backs of depth 0-2, "
         "cancellation before / after the request was sent, replies held back until after the cancellation, over an in-memory transport that "
         "delivers in arbitrary order, a FIFO one and net.Pipe, with and without a pre-built Client; every call / send / recv / handle / cancel / "
-        "return event must be a step of VipRpc; distinct = (event kind, message kind, error?, nesting depth)",
+        "return event must be a step of VipRpc; plus 40 callers whose handlers all call back at the same time and a chain of 80 nested call-backs "
+        "on one connection; distinct = (event kind, message kind, error?, nesting depth)",
         ["events are logged under one lock: the codec wrapper logs a message before it is written and after it is read",
          "the faketime runs use one P (interleaving at blocking points); real parallelism is covered by the race-build runs"],
         race_pid="C14")
